@@ -45,7 +45,9 @@ def families(tier, seed):
             combos = [(1, 2, QINITS[2]), (2, 1, QINITS[3])] if tier == 'quick' else \
                 [(nh, ng, q) for (nh, ng) in ((1, 1), (1, 2), (2, 1), (2, 2)) for q in QINITS]
             if tier == 'quick' and sh is shs[0]:
-                combos = [(1, 2, q) for q in QINITS] + [(2, 2, QINITS[2])]
+                combos = [(1, 2, q) for q in QINITS] + [(2, 2, QINITS[2]), (1, 3, QINITS[2])]
+            if tier != 'quick' and sh in shs[:2]:
+                combos = combos + [(1, 3, QINITS[2]), (2, 3, QINITS[3]), (1, 5, QINITS[0])]
             for nh, ng, q in combos:
                 out.append(_mk(f'make_streett_transducer holds={nh} goals={ng} L=2 qinit={q} {mn} {sh.name}',
                                gt.h_streett_transducer, sh,
